@@ -13,7 +13,7 @@ import numpy as np
 
 from .. import probes
 from ..ref import misc as rmisc
-from ..util import err_exact, result, rng_for, small, viol
+from ..util import scribble, err_exact, result, rng_for, small, viol
 
 ID = "C15"
 RULE = (
@@ -215,6 +215,8 @@ def run(case, ctx):
     key = {**{k: case[k] for k in ("T", "p", "f", "dt", "s")}, "D": D, "ds": ds, "dyn": dyn_sig, "const": const_sig, "nb": nb, "layout": case.get("layout", 0)}
     viols, evals = [], 0
     oob = [0]
+    scrib = [0]
+    outs = []
     _mon.take()
     try:
         ii, oo = data.time_series_idxs(p, f, dt, T - s)
@@ -224,6 +226,9 @@ def run(case, ctx):
             if set(a) & set(b):
                 viols.append(viol("target-time-is-input-time", f"sample with input times {a} and target times {b}"))
                 break
+        # hostile caller: the index tables now belong to the caller, who shifts them in place (`in_idxs += s`); if they are
+        # the library's own (memoised) arrays, every later call of this process is checked against the window table
+        scrib[0] += scribble((ii, oo))
         trajs = []
         for b in range(nb):
             dynb = frames(D, sp, dyn_sig, T, b)
@@ -262,6 +267,7 @@ def run(case, ctx):
         evals += 1
         # batched == per-trajectory stacked trajectory-major (first trajectory block)
         n = T - s - (p + f - 1) * dt
+        outs = [x1, y1, xb, yb]
         for t in x1.keys():
             if err_exact(np.asarray(xb[t])[:n], np.asarray(x1[t])) > 1e-6:
                 viols.append(viol("batched-not-stacked", f"batch_time_series block {t}: first trajectory's samples differ from the per-trajectory result"))
@@ -270,8 +276,9 @@ def run(case, ctx):
 
         viols.append(viol(f"windowing-exception-{type(e).__name__}", f"{type(e).__name__}: {str(e)[:200]}; {key}; {traceback.format_exc()[-300:]}"))
     viols += _mon.take()
+    scrib[0] += scribble(outs)  # inputs are rebuilt from scratch by the next case
     nontrivial = dt > 1 or s > 0 or f > 1
-    return result(key, viols, nontrivial, evals=evals, obs={"monitored_returns": evals, "checkify_index_checked_calls": oob[0]},
+    return result(key, viols, nontrivial, evals=evals, obs={"monitored_returns": evals, "checkify_index_checked_calls": oob[0], "returned_arrays_overwritten_by_caller": scrib[0]},
                   hist={"D": D, "downsample": ds, "dt": dt, "skip": s, "past": p, "future": f, "const_types": len(const_sig), "batch": nb}, sample={"key": key})
 
 
